@@ -102,9 +102,12 @@ def from_g4(name, g4func, Lambda=0.0, features=()):
     cache = {}
 
     def parts(t, x, y, z, m):
-        key = id(t)
-        if key not in cache:
+        # keyed on the object itself (a reference is kept): an `id` can be
+        # reused by a new object once the old one has been collected
+        if cache.get('t') is not t:
             cache.clear()
+            cache['t'] = t
+            key = 'parts'
             g4 = g4func(t, x, y, z, m)
             g = [[g4[i + 1][j + 1] for j in range(3)] for i in range(3)]
             if isinstance(g[0][0], J):
@@ -123,7 +126,7 @@ def from_g4(name, g4func, Lambda=0.0, features=()):
             a = m.sqrt(b2 - g4[0][0])
             cache[key] = (a, bu, [g[0][0], g[0][1], g[0][2], g[1][1],
                                   g[1][2], g[2][2]])
-        return cache[key]
+        return cache['parts']
     return Spacetime(
         name,
         alpha=lambda t, x, y, z, m: parts(t, x, y, z, m)[0],
